@@ -31,6 +31,13 @@ import (
 // See RFC7519 Section 2: https://tools.ietf.org/html/rfc7519#section-2
 type NumericDate int64
 
+const (
+	// 0001-01-01T00:00:00Z (exclusive).
+	minNumericDate = -62135596800
+	// 9999-12-31T23:59:59Z (inclusive).
+	maxNumericDate = 253402300799
+)
+
 // UnmarshalJSON reads a date from its JSON representation.
 func (n *NumericDate) UnmarshalJSON(b []byte) error {
 	const floatPrecision = 64
@@ -38,6 +45,14 @@ func (n *NumericDate) UnmarshalJSON(b []byte) error {
 	f, err := strconv.ParseFloat(stringx.ToString(b), floatPrecision)
 	if err != nil {
 		return errorchain.NewWithMessage(heimdall.ErrConfiguration, "failed to parse date").CausedBy(err)
+	}
+
+	// only instants time.Time can be formatted as (years 1 to 9999) are accepted. The conversion of a
+	// float64 which does not fit into an int64 is not defined (it yields the smallest int64 on amd64,
+	// i.e. a date in the remote past for a date in the remote future), and the first instant of
+	// year 1 is the zero time, which stands for a claim which is not set
+	if !(f > minNumericDate && f < maxNumericDate+1) {
+		return errorchain.NewWithMessagef(heimdall.ErrConfiguration, "date %s is out of range", stringx.ToString(b))
 	}
 
 	*n = NumericDate(f)
